@@ -1467,6 +1467,18 @@ namespace awkward {
           nextlen,
           nextcarry.data());
         util::handle_error(err7, classname(), identities_.get());
+        if (shifts.length() != 0) {
+          // add the shift handed down for the list each element came from
+          std::vector<int64_t> listof((size_t)offsets_.getitem_at(offsets_.length() - 1), 0);
+          for (int64_t i = 0;  i < offsets_.length() - 1;  i++) {
+            for (int64_t j = offsets_.getitem_at_nowrap(i);  j < offsets_.getitem_at_nowrap(i + 1);  j++) {
+              listof[(size_t)j] = i;
+            }
+          }
+          for (int64_t j = 0;  j < nextlen;  j++) {
+            nextshifts.setitem_at_nowrap(j, nextshifts.getitem_at_nowrap(j) + shifts.getitem_at_nowrap(listof[(size_t)nextcarry.getitem_at_nowrap(j)]));
+          }
+        }
       }
 
       ContentPtr nextcontent = content_.get()->carry(nextcarry, false);
